@@ -39,7 +39,7 @@ interface Node { id: ID }
 type Obj implements Node { id: ID x: Int y: Int! o: Obj l: [Obj] }
 type Other implements Node { id: ID z: Int }
 union U = Obj | Other
-type Query { a: Int b: Int c: Int! o: Obj n: Obj! l: [Obj] ln: [Obj!] i: Node u: [U] s(v: Int = 7): Int }
+type Query { a: Int b: Int c: Int! o: Obj n: Obj! l: [Obj] ln: [Obj!] i: Node u: [U] s(v: Int = 7): Int ev: Obj tick: Int }
 type Mutation { m1: Obj m2: Obj m3: Int m4: [Obj] m5: Int! }
 type Subscription { ev: Obj tick: Int }
 """
@@ -69,6 +69,8 @@ class World:
         self.overrides = overrides or {}
         self.loop = None
         self.counter = 0
+        self.tracer = None
+        self.event_index = None
 
     def ev(self, *e):
         self.log.append(e)
@@ -81,6 +83,8 @@ def pstr(path):
 def _outcome(world, info, parent, args):
     p = pstr(info.path)
     o = world.overrides.get(p)
+    if world.event_index is not None:
+        o = world.overrides.get("%d|%s" % (world.event_index, p), o)
     world.ev("finish", p)
     if o == "err":
         raise ResolverError("E@" + p)
@@ -248,9 +252,20 @@ def run_config(config, scn, ch, document=None, fast=False):
     k, m = scn.get("instr", 0), scn.get("mw", 0)
     if k:
         kwargs["instrumentation"] = _instr(world, k, scn.get("instr_nested", False))
+    if scn.get("tracer"):
+        from py_gql.tracers import ApolloTracer
+
+        world.tracer = ApolloTracer()
+        members = [RecInstr(world, "I%d" % i) for i in range(max(k, 1))]
+        members.insert(1 if len(members) > 1 else len(members), world.tracer)
+        kwargs["instrumentation"] = MultiInstrumentation(*members)
     if m:
         kwargs["middlewares"] = [_mk_mw("M%d" % i) for i in range(m)]
     doc = document if document is not None else scn["query"]
+    if scn.get("preparsed") and document is None:
+        from py_gql.lang import parse as _parse
+
+        doc = _parse(scn["query"])
     if fast and document is None:
         ast, errs = prepared(scn)
         if not errs:
